@@ -66,9 +66,9 @@ def worker(outfile, tier, part, nparts):
         fn = getattr(sym, fname)
         res = X.explore(lambda: fn(*args), want_witness=False)
         if not res.complete or any(p.status not in ('ok', 'abort') for p in res.paths):
-            out[ji] = ('incomplete', [(p.status, str(p.value)[:200]) for p in res.paths if p.status not in ('ok', 'abort')][:3])
+            out[ji] = ('incomplete', [(p.status, str(p.value)[:200]) for p in res.paths if p.status not in ('ok', 'abort')][:3], (fname, args))
             continue
-        out[ji] = ('ok', [(cond.dump(cond.And(*p.pc)), p.value, p.nfresh) for p in res.paths if p.status == 'ok'])
+        out[ji] = ('ok', [(cond.dump(cond.And(*p.pc)), p.value, p.nfresh) for p in res.paths if p.status == 'ok'], (fname, args))
     st = R.ST.stats.as_dict()
     with open(outfile, 'wb') as f:
         pickle.dump({'runs': out, 'stats': {k: st[k] - stats0[k] for k in st}, 'funcs': S.functions_encoded()}, f)
@@ -118,7 +118,9 @@ def post(tier, seed, log):
         os.rmdir(tmp)
     except OSError:
         pass
-    js = jobs(tier)
+    # the job list is taken from the seed-0 workers (they enumerate it from the tree under test)
+    js = [runs[0][ji][2] + (None,) for ji in sorted(runs.get(0, {}))]
+    jix = sorted(runs.get(0, {}))
     queries = 0
     paths = 0
     samples = []
@@ -126,8 +128,11 @@ def post(tier, seed, log):
         for s in seeds[1:]:
             if s not in runs:
                 continue
-            for ji, (fname, args, nv) in enumerate(js):
+            for ji, (fname, args, nv) in zip(jix, js):
                 r0, r1 = runs[0].get(ji), runs[s].get(ji)
+                if r1 is not None and r1[2] != r0[2]:
+                    problems.append('hash-seed workers enumerated different jobs (%r vs %r)' % (r0[2][0], r1[2][0]))
+                    continue
                 if r0 is None or r1 is None or r0[0] != 'ok' or r1[0] != 'ok':
                     problems.append('hash-seed job %s%r incomplete under seed 0 or %d: %r' % (fname, str(args)[:80], s, (r0 and r0[1][:1], r1 and r1[1][:1]) if (r0 and r0[0] != 'ok') or (r1 and r1[0] != 'ok') else 'missing'))
                     continue
